@@ -102,7 +102,23 @@ PENDING = {  # not yet claimed at this commit (check still being built) -- shrin
 }
 
 
+HIST = {"C01", "C02", "C03", "C05", "C08", "C12", "C14", "C15", "C17", "C19", "C20"}
+INDEP = {"C01", "C02", "C03", "C05", "C06", "C07", "C08", "C12", "C13", "C14", "C15", "C16", "C17", "C18", "C20"}
+HIST_TXT = (" In addition every sequence up to depth 3 (quick) / 4 (thorough) over the class's public mutators and observers (pack, lengths, ==, hash, derived views) is run from "
+            "constructed and decoded start states and compared at every step with the reference encoding of a plain-dict model (read-then-set-then-read exposes stale caches).")
+INDEP_TXT = (" The independence oracle (mc/alias.py) re-observes every object and every pack() result handed out for earlier cases after the following cases, so state shared "
+             "between results (template objects, caches, output buffers) is detected; every shard runs in a fresh process.")
+
+
 def main():
+    for pid in list(CHECKS):
+        eng, level, tech, text, note, ref = CHECKS[pid]
+        if pid in HIST:
+            text += HIST_TXT
+            tech += "; explicit-state exploration of setter/observer histories"
+        if pid in INDEP:
+            text += INDEP_TXT
+        CHECKS[pid] = (eng, level, tech, text, note, ref)
     props = [json.loads(l) for l in open(os.path.join(HERE, "properties.jsonl"))]
     checks = []
     for pid in sorted(CLAIMED):
